@@ -7,6 +7,7 @@
 From Coq Require Import ZArith NArith List Bool.
 From Mpc Require Import Gen.Consts Base.Codec Base.Label OT.Vole OT.VoleProof OT.Fx OT.FxProof OT.RunC20.
 Import ListNotations.
+From Mpc Require Gen.State Base.StateExpected Base.StateCheck Base.StatePkgs.
 Open Scope Z_scope.
 
 (* ---- vector OLE ---- *)
@@ -178,3 +179,16 @@ Print Assumptions C20_bmr_k.
 Theorem C20_ot_ideal : forall w c, ot_ideal w c = pick w c.
 Proof. exact ot_ideal_spec. Qed.
 Print Assumptions C20_ot_ideal.
+
+(* STATE INVENTORY (finite obligation on the model regenerated from the source, checked by
+   computation).  The struct fields and package-level variables of the Go packages this
+   property is anchored in — bmr, ot, vole — as emitted from /repo's current
+   source by harness/gen_state.go (Gen/State.v) are exactly those the models above were written
+   against (Base/StateExpected.v).  A new field or variable (a cache, a memo, a pool, a counter,
+   a changed field type) is state the models do not have: this obligation then breaks and the
+   property is no longer shown to hold until the change has been reviewed against the model. *)
+Theorem C20_state_inventory :
+  Mpc.Base.StateCheck.state_unchanged Mpc.Gen.State.state_inventory Mpc.Base.StateExpected.expected_state
+    Mpc.Base.StatePkgs.pkgs_C20 = true.
+Proof. vm_compute. reflexivity. Qed.
+Print Assumptions C20_state_inventory.
